@@ -14,6 +14,7 @@ FUNCTIONS = [
     "PrintrunWriter.write", "PrintrunWriter._send_statement", "PrintrunWriter._wait_for_acknowledgment",
     "PrintrunWriter._abort_on_device_error", "PrintrunWriter._on_device_message",
     "PrintrunWriter._on_printrun_error", "PrintrunWriter.is_connected/get_parameter",
+    "PrintrunWriter.disconnect/_wait_for_pending_operations/has_pending_operations",
 ]
 BOUNDS = ("NOT real thread schedules. The printcore object is a recording stub; the reader thread is "
           "replaced by a scripted source of device lines whose callbacks run at one of two points "
@@ -28,8 +29,12 @@ BOUNDS = ("NOT real thread schedules. The printcore object is a recording stub; 
           "status line, never blocked although the acknowledgement had arrived); an error/alarm/!! "
           "reply or a printrun error surfaces as DeviceError from write(); a reading reported "
           "before or on the acknowledging line is available when write() returns; the next write "
-          "works normally after an error. NOT decided: pre-emption at other points, latency, "
-          "connect/disconnect and their polling loops, the real printcore threads.")
+          "works normally after an error. disconnect(wait): with the polling loop's sleep as the point "
+          "where the stubbed sender/reader make progress (0, 1 or 3 queued statements, busy or idle, "
+          "optional error line at the 1st/2nd poll), the connection is closed only after the queue "
+          "is empty and the last statement acknowledged, a device error during the wait is raised "
+          "and the connection closed all the same, wait=False does not poll. NOT decided: "
+          "pre-emption at other points, latency, connect(), the real printcore threads.")
 ASSUMPTIONS = [
     "the reader thread is modelled by callbacks at two yield points (inside send(), inside "
     "Event.wait()); pre-emption between other statements of write() is not explored",
@@ -90,10 +95,10 @@ class FakeCore:
         self.on_send()
 
     def disconnect(self):
-        pass
+        self.disconnected_with = (self.priqueue.empty(), self.clear, self.printing)
 
     def cancelprint(self):
-        pass
+        self.cancelled = True
 
 
 SCRIPTS = {
@@ -201,6 +206,71 @@ def _make(script_names):
     return h
 
 
+def _make_disconnect(nq, error_step):
+    """disconnect(wait): with wait=True the connection is closed only after everything queued has
+    been sent and acknowledged (the polling loop's sleep is where the sender/reader make progress);
+    a device error during the wait is raised and the connection is closed all the same."""
+    def h(wait: bool, busy: bool):
+        w = pw_mod.PrintrunWriter("serial", "host", "port", 250000)
+        core_dev = FakeCore()
+        w._device = core_dev
+        for i in range(nq):
+            core_dev.priqueue.put(f"M400 ; {i}")
+        core_dev.clear = not busy and nq == 0
+        steps = []
+        still_pending = []
+
+        class FakeTime:
+            @staticmethod
+            def sleep(dt):
+                steps.append(dt)
+                if len(steps) > 50:
+                    raise WouldBlock()
+                if not core_dev.priqueue.empty() and core_dev.clear:
+                    core_dev.sent.append(core_dev.priqueue.get_nowait())
+                    core_dev.clear = False
+                elif not core_dev.clear:
+                    core_dev.clear = True            # the acknowledgement arrived
+                if error_step and len(steps) == error_step:
+                    w._on_device_message("error: thermal runaway")
+                    # is the loop going to look again? (an error on the very last poll is not
+                    # covered by the property's wording and is not demanded here)
+                    still_pending.append(not core_dev.priqueue.empty() or not core_dev.clear)
+
+            def __getattr__(self, name):
+                import time
+                return getattr(time, name)
+
+        old_time = pw_mod.time
+        pw_mod.time = FakeTime()
+        raised = None
+        try:
+            w.disconnect(wait)
+        except Exception as e:  # noqa: BLE001
+            raised = e
+        finally:
+            pw_mod.time = old_time
+        ctx = lambda: (f"queued={nq} busy={busy} wait={wait} error_step={error_step}: "  # noqa: E731
+                       f"polls={len(steps)} closed_with={getattr(core_dev, 'disconnected_with', None)!r} "
+                       f"raised={raised!r}")
+        closed = getattr(core_dev, "disconnected_with", None)
+        if closed is None or w._device is not None or w.is_connected:
+            return V("disconnect-left-the-connection-open", ctx)
+        errored = bool(error_step) and wait and len(steps) >= error_step and still_pending == [True]
+        if errored:
+            if raised is None or type(raised).__name__ != "DeviceError":
+                return V("device-error-during-disconnect-not-raised", ctx)
+        elif raised is not None:
+            return V("disconnect-raised", ctx)
+        if wait and not errored and closed[:2] != (True, True):
+            return V("disconnect-closed-before-everything-was-sent-and-acknowledged", ctx)
+        if not wait and steps:
+            return V("disconnect-without-wait-polled", ctx)
+        reached("done")
+        return None
+    return h
+
+
 def cells(tier):
     import itertools
     names = list(SCRIPTS)
@@ -211,4 +281,9 @@ def cells(tier):
     for combo in combos:
         out.append(Cell("statements=" + ",".join(combo), _make(combo), budget_s=120,
                         must_reach=("done",), entry="PrintrunWriter.write"))
+    for nq in (0, 1, 3):
+        for error_step in (0, 1, 2):
+            out.append(Cell(f"disconnect|queued={nq}|error-at-poll={error_step}",
+                            _make_disconnect(nq, error_step), budget_s=60, must_reach=("done",),
+                            entry="PrintrunWriter.disconnect/_wait_for_pending_operations"))
     return out
